@@ -1,5 +1,5 @@
 (* Right-hand side, certificate checker of the linear solve, normalisation step, uniform closed forms (d dims). *)
-From Coq Require Import ZArith List QArith Qcanon Bool Lia Lra Lqa.
+From Coq Require Import ZArith List QArith Qcanon Bool Lia Lqa.
 From SG Require Import Base.QcUtil Base.PolyInt Model.Gram Proofs.GramHat Proofs.GramEntries Proofs.GramPD.
 Import ListNotations.
 Open Scope Qc_scope.
